@@ -26,6 +26,11 @@ func init() {
 	families["pool_seq"] = genPoolSeq
 	families["xver_big"] = genXverBig
 	families["reuse_pairs"] = genReusePairs
+	families["build_big"] = genBuildBig
+	families["many_fields"] = genManyFields
+	families["roundtrip_big"] = genRoundtripBig
+	families["twin_merge"] = genTwinMerge
+	families["dict_interleave"] = genDictInterleave
 	families["pool_big"] = genPoolBig
 }
 
@@ -722,6 +727,33 @@ func genMatch(r *rand.Rand, i int) Scenario {
 		return string(vocab[i].Term.Raw()) < string(vocab[j].Term.Raw())
 	})
 	extra := []Pair{{"nosuchfield", B([]byte("x"))}, {"", B([]byte("x"))}, {"a", B([]byte("absent"))}, {"_id", B([]byte("d0"))}, {"_id", B([]byte("nope"))}}
+	// structured lists: every term of one field, in random order, with repeats - the union is every
+	// document that has the field; repeated and co-located terms must not disturb later ones
+	byField := map[string][]Pair{}
+	for _, v := range vocab {
+		byField[v.Field] = append(byField[v.Field], v)
+	}
+	fnames := []string{}
+	for f := range byField {
+		fnames = append(fnames, f)
+	}
+	sort.Strings(fnames)
+	for k := 0; k < 4 && len(fnames) > 0; k++ {
+		f := fnames[r.Intn(len(fnames))]
+		ts := append([]Pair{}, byField[f]...)
+		r.Shuffle(len(ts), func(i, j int) { ts[i], ts[j] = ts[j], ts[i] })
+		pairs := []Pair{}
+		for _, t := range ts {
+			pairs = append(pairs, t)
+			if r.Intn(2) == 0 {
+				pairs = append(pairs, t) // repeated entry
+			}
+		}
+		if r.Intn(2) == 0 {
+			pairs = append([]Pair{ts[0]}, pairs...)
+		}
+		sc.Ops = append(sc.Ops, Op{Op: "match", Seg: 1 + r.Intn(4), Pairs: pairs})
+	}
 	for k := 0; k < 10; k++ {
 		n := r.Intn(6)
 		if k == 0 {
@@ -1117,5 +1149,258 @@ func genPoolBig(r *rand.Rand, i int) Scenario {
 		Op{Op: "build", Seg: 3, Batch: 0, Mode: 0, Cold: true},
 		Op{Op: "build", Seg: 4, Batch: 1, Mode: 0}, Op{Op: "build", Seg: 5, Batch: 2, Mode: 0},
 		Op{Op: "build", Seg: 6, Batch: 0, Mode: 0}, Op{Op: "build", Seg: 7, Batch: 1, Mode: 0})
+	return sc
+}
+
+// build_big: batches whose size and whose dense term's cardinality sit on the chunking constants
+// (1023 / 1024 / 1025 / 2047 / 2048 / 2049 / 3072 documents; the term in all, all but one, exactly 1024...),
+// enumerated by index; adaptive and legacy chunk modes; every posting drained (C01, C05, C02 with a merge)
+func genBuildBig(r *rand.Rand, i int) Scenario {
+	ns := []int{1024, 1023, 1025, 2048, 2047, 2049, 3072}
+	n := ns[i%len(ns)]
+	cards := []int{n, n - 1, 1024, 1023, 1025, n / 2}
+	card := cards[(i/len(ns))%len(cards)]
+	if card > n {
+		card = n
+	}
+	b := make(Batch, n)
+	skip := n - card // documents without the term, spread: first ones, or around the middle
+	for d := 0; d < n; d++ {
+		has := d >= skip
+		if (i/3)%2 == 1 {
+			has = d < n/2 || d >= n/2+skip
+		}
+		doc := Doc{}
+		if has {
+			occ := TermOcc{Term: B([]byte("x")), Freq: 1 + d%3, Locs: []Loc{}}
+			if d%5 == 0 {
+				occ.Locs = append(occ.Locs, Loc{Field: "", Pos: 1, Start: d, End: d + 1})
+			}
+			doc = append(doc, FieldInst{Name: "a", Len: occ.Freq, Value: Bytes{}, Terms: []TermOcc{occ}})
+		}
+		b[d] = doc
+	}
+	sc := Scenario{Name: fmt.Sprintf("build_big-%d", i), NormKind: "code", Universe: []string{"_id", "a"}, Batches: []Batch{b},
+		Tags: []string{"build_big"}}
+	mode := []uint32{0, 0, 1025, 1024}[(i/2)%4]
+	sc.Ops = append(sc.Ops, Op{Op: "build", Seg: 1, Batch: 0, Mode: mode})
+	seg := 1
+	if (i/7)%3 == 2 {
+		sc.Ops = append(sc.Ops, Op{Op: "merge", File: 1, In: []int{1}, Drops: []DropSpec{{Kind: "nil"}}, Mode: 0, Buf: 4096},
+			Op{Op: "load", File: 1, Seg: 2, Backing: "mem"})
+		seg = 2
+	}
+	sc.Ops = append(sc.Ops, Op{Op: "dict", Seg: seg, Field: "a"},
+		Op{Op: "pl_open", Seg: seg, Field: "a", Term: B([]byte("x")), Pl: 10},
+		Op{Op: "it_open", Pl: 10, It: 20, Freq: true, Norm: true, Locs: true})
+	for k := 0; k < card+1; k++ {
+		sc.Ops = append(sc.Ops, Op{Op: "it_next", It: 20})
+	}
+	// and a second pass that jumps across the chunk boundaries
+	sc.Ops = append(sc.Ops, Op{Op: "it_open", Pl: 10, It: 21, Freq: true, Norm: true, Locs: false})
+	for _, d := range []int{1, 511, 512, 513, 682, 683, 684, 1023, 1024, 1025, 1365, 1366, 2047, 2048, 2049, n - 1, n} {
+		if d <= n {
+			sc.Ops = append(sc.Ops, Op{Op: "it_adv", It: 21, D: d})
+		}
+	}
+	return sc
+}
+
+// many_fields: 70..140 field names (field ids beyond 64 and 128), multi-valued late-sorting fields, merges of
+// segments with different subsets of them (C01, C02, C16)
+func genManyFields(r *rand.Rand, i int) Scenario {
+	nf := 70 + r.Intn(70)
+	names := make([]string, nf)
+	for k := range names {
+		names[k] = fmt.Sprintf("f%03d", k)
+	}
+	mk := func(lo, hi int) Batch {
+		nd := 2 + r.Intn(3)
+		b := make(Batch, nd)
+		for d := 0; d < nd; d++ {
+			id := []byte(fmt.Sprintf("m%d", r.Intn(1000)))
+			doc := Doc{{Name: "_id", Len: 1, Stored: true, Value: B(id), Terms: []TermOcc{{Term: B(id), Freq: 1, Locs: []Loc{}}}}}
+			for k := lo; k < hi; k++ {
+				if r.Intn(3) == 0 {
+					continue
+				}
+				reps := 1
+				if r.Intn(4) == 0 {
+					reps = 2 + r.Intn(2) // multi-valued
+				}
+				for q := 0; q < reps; q++ {
+					t := termVocab[r.Intn(4)]
+					doc = append(doc, FieldInst{Name: names[k], Len: 1, Stored: r.Intn(4) == 0, Value: B([]byte("v")),
+						Terms: []TermOcc{{Term: B(t), Freq: 1, Locs: []Loc{}}}})
+				}
+			}
+			b[d] = doc
+		}
+		return b
+	}
+	b1 := mk(0, nf)
+	b2 := mk(nf/3, nf)
+	sc := Scenario{Name: fmt.Sprintf("many_fields-%d", i), NormKind: "code", Universe: append([]string{"_id", "nosuchfield"}, names...),
+		Batches: []Batch{b1, b2}, Tags: []string{"many_fields"}}
+	sc.Ops = append(sc.Ops, Op{Op: "build", Seg: 1, Batch: 0, Mode: pickMode(r)}, Op{Op: "build", Seg: 2, Batch: 1, Mode: pickMode(r)},
+		Op{Op: "observe", Seg: 1, Level: "light"},
+		Op{Op: "persist", Seg: 1, File: 1}, Op{Op: "load", File: 1, Seg: 3, Backing: "file"}, Op{Op: "observe", Seg: 3, Level: "light"},
+		Op{Op: "merge", File: 2, In: []int{1, 2}, Drops: []DropSpec{randDropsNotAll(r, len(b1)), randDrops(r, len(b2))}, Mode: pickMode(r), Buf: 256},
+		Op{Op: "load", File: 2, Seg: 4, Backing: "mem"}, Op{Op: "observe", Seg: 4, Level: "light"})
+	for k := 0; k < 6; k++ {
+		f := names[nf-1-r.Intn(10)]
+		for _, seg := range []int{1, 4} {
+			sc.Ops = append(sc.Ops, Op{Op: "pl_open", Seg: seg, Field: f, Term: B(termVocab[r.Intn(4)]), Pl: 10 + k},
+				Op{Op: "it_open_last", It: 40 + k, Freq: true, Norm: true, Locs: true}, Op{Op: "it_next_last"}, Op{Op: "it_next_last"})
+		}
+	}
+	for n := 0; n < len(b1)+len(b2); n++ {
+		sc.Ops = append(sc.Ops, Op{Op: "stored", Seg: 4, N: n})
+	}
+	return sc
+}
+
+// roundtrip_big: document counts on and around the multiples of the stored block size (128) and of the
+// doc-value chunk size (1024); built and merged; loaded memory- and file-backed (C04, C10, C11)
+func genRoundtripBig(r *rand.Rand, i int) Scenario {
+	ns := []int{128, 127, 129, 256, 255, 257, 384, 1024, 1023, 1025, 512}
+	n := ns[i%len(ns)]
+	mk := func(n, base int) Batch {
+		b := make(Batch, n)
+		for d := 0; d < n; d++ {
+			id := []byte(fmt.Sprintf("%05d", base+d))
+			doc := Doc{{Name: "_id", Len: 1, Stored: true, Value: B(id), Terms: []TermOcc{{Term: B(id), Freq: 1, Locs: []Loc{}}}}}
+			if d%50 == 0 {
+				doc = append(doc, FieldInst{Name: "a", Len: 1, DV: true, Value: Bytes{}, Terms: []TermOcc{{Term: B([]byte("t")), Freq: 1, Locs: []Loc{}}}})
+			}
+			b[d] = doc
+		}
+		return b
+	}
+	sc := Scenario{Name: fmt.Sprintf("roundtrip_big-%d", i), NormKind: "code", Universe: []string{"_id", "a"}, Tags: []string{"roundtrip_big"}}
+	var seg int
+	if (i/len(ns))%2 == 0 {
+		sc.Batches = []Batch{mk(n, 0)}
+		sc.Ops = append(sc.Ops, Op{Op: "build", Seg: 1, Batch: 0, Mode: 0}, Op{Op: "persist", Seg: 1, File: 1})
+		seg = 1
+	} else {
+		// a merge whose survivors number exactly n
+		sc.Batches = []Batch{mk(n/2+2, 0), mk(n-n/2+2, 10000)}
+		sc.Ops = append(sc.Ops, Op{Op: "build", Seg: 1, Batch: 0, Mode: 0}, Op{Op: "build", Seg: 2, Batch: 1, Mode: 0},
+			Op{Op: "merge", File: 1, In: []int{1, 2}, Drops: []DropSpec{{Kind: "set", Docs: []int{0, 1}}, {Kind: "set", Docs: []int{0, 1}}}, Mode: 0, Buf: 4096})
+		seg = 0
+	}
+	_ = seg
+	sc.Ops = append(sc.Ops, Op{Op: "layout", File: 1},
+		Op{Op: "load", File: 1, Seg: 5, Backing: "mem"}, Op{Op: "load", File: 1, Seg: 6, Backing: "file"},
+		Op{Op: "load", File: 1, Seg: 7, Backing: "mem", Impl: "ref"})
+	for _, s := range []int{5, 6, 7} {
+		sc.Ops = append(sc.Ops, Op{Op: "fields", Seg: s}, Op{Op: "dict", Seg: s, Field: "a", NoCount: s == 7})
+		for _, d := range []int{0, 1, 126, 127, 128, 129, 255, 256, n - 2, n - 1, n, n + 1} {
+			if d >= 0 {
+				sc.Ops = append(sc.Ops, Op{Op: "stored", Seg: s, N: d})
+			}
+		}
+		sc.Ops = append(sc.Ops, Op{Op: "dv_open", Seg: s, R: s, Fields: []string{"a"}}, Op{Op: "dv_visit", R: s, N: 0},
+			Op{Op: "dv_visit", R: s, N: n - 1}, Op{Op: "dv_visit", R: s, N: 50})
+	}
+	sc.Ops = append(sc.Ops, Op{Op: "persist", Seg: 5, File: 2}, Op{Op: "persist", Seg: 6, File: 3})
+	return sc
+}
+
+// twin_merge: segments with identical layout (same shapes and byte sizes, hence equal file offsets) but
+// different content - frequencies and stored bytes differ - merged together in several bracketings (C02, C17)
+func genTwinMerge(r *rand.Rand, i int) Scenario {
+	cfg := defaultCfg(r)
+	cfg.MinDocs, cfg.MaxDocs = 1, 4
+	cfg.StatsMode = true
+	cfg.PEmptyDoc, cfg.PNoID = 0, 0
+	seq := 0
+	b := genBatch(r, &cfg, &seq)
+	twin := func(delta int) Batch {
+		t := make(Batch, len(b))
+		for d := range b {
+			t[d] = make(Doc, len(b[d]))
+			for k := range b[d] {
+				fi := b[d][k]
+				ts := make([]TermOcc, len(fi.Terms))
+				l := 0
+				for x, o := range fi.Terms {
+					o.Freq += delta // still a one-byte varint; same number of locations
+					ts[x] = o
+					l += o.Freq
+				}
+				fi.Terms = ts
+				fi.Len = l
+				v := append(Bytes{}, fi.Value...)
+				for x := range v {
+					v[x] = (v[x] + delta) % 256
+				}
+				fi.Value = v
+				t[d][k] = fi
+			}
+		}
+		return t
+	}
+	sc := Scenario{Name: fmt.Sprintf("twin_merge-%d", i), NormKind: "code", Universe: universeOf(&cfg), Batches: []Batch{b, twin(1), twin(2)},
+		Tags: []string{"twin_merge"}}
+	mode := pickMode(r)
+	sc.Ops = append(sc.Ops, Op{Op: "build", Seg: 1, Batch: 0, Mode: mode}, Op{Op: "build", Seg: 2, Batch: 1, Mode: mode}, Op{Op: "build", Seg: 3, Batch: 2, Mode: mode})
+	nd := func(k int) []DropSpec {
+		d := make([]DropSpec, k)
+		for x := range d {
+			d[x] = DropSpec{Kind: "nil"}
+		}
+		return d
+	}
+	om := pickMode(r)
+	sc.Ops = append(sc.Ops,
+		Op{Op: "merge", File: 10, In: []int{1, 2, 3}, Drops: nd(3), Mode: om, Buf: 64}, Op{Op: "load", File: 10, Seg: 10, Backing: "mem"},
+		Op{Op: "merge", File: 11, In: []int{1, 2}, Drops: nd(2), Mode: om, Buf: 64}, Op{Op: "load", File: 11, Seg: 11, Backing: "mem"},
+		Op{Op: "merge", File: 12, In: []int{11, 3}, Drops: nd(2), Mode: om, Buf: 64}, Op{Op: "load", File: 12, Seg: 12, Backing: "mem"},
+		Op{Op: "merge", File: 13, In: []int{2, 3}, Drops: nd(2), Mode: om, Buf: 64}, Op{Op: "load", File: 13, Seg: 13, Backing: "mem"},
+		Op{Op: "merge", File: 14, In: []int{1, 13}, Drops: nd(2), Mode: om, Buf: 64}, Op{Op: "load", File: 14, Seg: 14, Backing: "mem"},
+		Op{Op: "observe", Seg: 10, Level: "full"}, Op{Op: "observe", Seg: 12, Level: "full"}, Op{Op: "observe", Seg: 14, Level: "full"},
+		Op{Op: "same_obs", In: []int{10, 12, 14}})
+	return sc
+}
+
+// dict_interleave: several dictionary iterators of ONE dictionary object alive at the same time, stepped
+// alternately (C08, C13)
+func genDictInterleave(r *rand.Rand, i int) Scenario {
+	cfg := defaultCfg(r)
+	cfg.TermsPerInst = 6
+	cfg.MinDocs, cfg.MaxDocs = 2, 6
+	sc := Scenario{Name: fmt.Sprintf("dict_interleave-%d", i), NormKind: "code", Universe: universeOf(&cfg), Tags: []string{"dict_interleave"}}
+	seq := 0
+	b1 := genBatch(r, &cfg, &seq)
+	sc.Batches = []Batch{b1}
+	sc.Ops = append(sc.Ops, Op{Op: "build", Seg: 1, Batch: 0, Mode: pickMode(r)},
+		Op{Op: "merge", File: 1, In: []int{1}, Drops: []DropSpec{{Kind: "nil"}}, Mode: pickMode(r), Buf: 64}, Op{Op: "load", File: 1, Seg: 2, Backing: "mem"})
+	keysV := [][]byte{[]byte("w"), []byte("x"), []byte("xy"), []byte("y"), []byte("z"), {0}, []byte("d1")}
+	for round := 0; round < 3; round++ {
+		seg := 1 + r.Intn(2)
+		f := cfg.Fields[r.Intn(len(cfg.Fields))]
+		if r.Intn(4) == 0 {
+			f = "_id"
+		}
+		nit := 2 + r.Intn(2)
+		for k := 0; k < nit; k++ {
+			o := Op{Op: "dit_open", Seg: seg, Field: f, R: 10*round + k + 1, ReuseD: true}
+			if r.Intn(2) == 0 {
+				o.Lo = &Bound{Kind: "key", Key: B(keysV[r.Intn(len(keysV))])}
+			}
+			if r.Intn(3) == 0 {
+				o.Aut = &Aut{Kind: "prefix", P: B(keysV[r.Intn(len(keysV))])}
+			}
+			sc.Ops = append(sc.Ops, o)
+			for s := 0; s < r.Intn(3); s++ {
+				sc.Ops = append(sc.Ops, Op{Op: "dit_next", R: 10*round + 1 + r.Intn(k+1)})
+			}
+		}
+		for s := 0; s < 14; s++ {
+			sc.Ops = append(sc.Ops, Op{Op: "dit_next", R: 10*round + 1 + r.Intn(nit)})
+		}
+	}
 	return sc
 }
